@@ -513,6 +513,13 @@ fn main() {
     cov.insert("registry_types".into(), json!(cx.regs.len() + 1));
     cov.insert("named_constants_checked".into(), json!(nconst));
     cov.insert("constants_in_source_without_registry_entry".into(), json!(unknown));
+    // operations of the registry types that this check does not know (added after it was written): listed, not judged
+    {
+        const KNOWN: &[&str] = &["from_u16", "hash_alg", "sign_alg", "is_reserved", "key_bits", "new", "to_be_bytes"];
+        let types: Vec<&str> = cx.regs.iter().map(|r| r.reg.ty).chain(["TlsCipherSuiteID"]).collect();
+        let unknown_api: Vec<String> = vchecks::registries::scan_impl_methods().into_iter().filter(|(t, m)| types.contains(&t.as_str()) && !KNOWN.contains(&m.as_str())).map(|(t, m)| format!("{}::{}", t, m)).collect();
+        cov.insert("public_methods_of_registry_types_not_exercised".into(), json!(unknown_api));
+    }
     cov.insert("unlisted_constants_judged_by_name".into(), json!(njudged));
     cov.insert("unlisted_constants_not_judged".into(), json!(unjudged));
     cov.insert("rule".into(), json!(
